@@ -229,12 +229,12 @@ theorem real_hsqrt : ∀ x : ℝ, 0 ≤ x → Real.sqrt x * Real.sqrt x = x ∧ 
   fun x hx => ⟨Real.mul_self_sqrt hx, Real.sqrt_nonneg x⟩
 
 /-- `Vec3::length()` of a vector whose squares sum to 1 -/
-theorem V3_length_unit (tmin : ℝ) (v : V3 ℝ) (h : v.x * v.x + v.y * v.y + v.z * v.z = 1) :
-    Gen.V3.length tmin Real.sqrt v = 1 := by
-  rw [C08.V3_length_eq tmin real_hsqrt v, h, Real.sqrt_one]
+theorem V3_length_unit (tmin tmax : ℝ) (v : V3 ℝ) (h : v.x * v.x + v.y * v.y + v.z * v.z = 1) :
+    Gen.V3.length tmin tmax Real.sqrt v = 1 := by
+  rw [C08.V3_length_eq tmin tmax real_hsqrt v, h, Real.sqrt_one]
 
-theorem V2_length_unit (tmin : ℝ) (v : V2 ℝ) (h : v.x * v.x + v.y * v.y = 1) :
-    Gen.V2.length tmin Real.sqrt v = 1 := by
-  rw [C08.V2_length_eq tmin real_hsqrt v, h, Real.sqrt_one]
+theorem V2_length_unit (tmin tmax : ℝ) (v : V2 ℝ) (h : v.x * v.x + v.y * v.y = 1) :
+    Gen.V2.length tmin tmax Real.sqrt v = 1 := by
+  rw [C08.V2_length_eq tmin tmax real_hsqrt v, h, Real.sqrt_one]
 
 end ImathVerif.Euler
